@@ -26,7 +26,7 @@ LEVEL = "fault_enumeration"
 DETERMINISTIC_RUN = True
 # Process creation (fork, page faults) serialises machine-wide in this sandbox (8 parallel forks of a booted
 # interpreter take 200 ms each against 14 ms alone), so procsim throughput is ~0.6 runs/s however many lanes run.
-TIERS = {"quick": {"runs": 96, "timeout": 1800, "lane_timeout": 1200, "procs": 8},
+TIERS = {"quick": {"runs": 96, "timeout": 5400, "lane_timeout": 3000, "procs": 8},
          "thorough": {"runs": 1600, "timeout": 14400, "lane_timeout": 7200, "procs": 8}}
 # 0 = hash randomisation switched off (sys.flags.hash_randomization == 0): a configuration of its own,
 # code may (wrongly) treat hashes as stable across processes there (seeded change C14-b)
